@@ -195,6 +195,49 @@ fn bad_reference(s: &str, custom_entities: bool) -> Option<String> {
     None
 }
 
+/// Is `decl` (the text between `<?` and `?>`) a well-formed XML declaration?
+///
+/// `XMLDecl ::= '<?xml' VersionInfo EncodingDecl? SDDecl? S? '?>'`
+fn is_xml_decl(decl: &str) -> bool {
+    const SPACE: [char; 4] = [' ', '\t', '\r', '\n'];
+    // `S name Eq quoted-value` at the start of `s`: the value and what follows it
+    fn pseudo_attr<'a>(s: &'a str, name: &str) -> Option<(&'a str, &'a str)> {
+        let rest = s.strip_prefix(SPACE)?.trim_start_matches(SPACE);
+        let rest = rest.strip_prefix(name)?.trim_start_matches(SPACE);
+        let rest = rest.strip_prefix('=')?.trim_start_matches(SPACE);
+        let quote = rest.chars().next().filter(|c| matches!(c, '"' | '\''))?;
+        let (value, rest) = rest[1..].split_once(quote)?;
+        Some((value, rest))
+    }
+    let Some(mut rest) = decl.strip_prefix("xml") else {
+        return false;
+    };
+    match pseudo_attr(rest, "version") {
+        Some((v, r))
+            if v.len() > 2 && v.starts_with("1.") && v[2..].bytes().all(|b| b.is_ascii_digit()) =>
+        {
+            rest = r
+        }
+        _ => return false,
+    }
+    if let Some((enc, r)) = pseudo_attr(rest, "encoding") {
+        let mut chars = enc.chars();
+        if !chars.next().is_some_and(|c| c.is_ascii_alphabetic())
+            || !chars.all(|c| c.is_ascii_alphanumeric() || matches!(c, '.' | '_' | '-'))
+        {
+            return false;
+        }
+        rest = r;
+    }
+    if let Some((standalone, r)) = pseudo_attr(rest, "standalone") {
+        if !matches!(standalone, "yes" | "no") {
+            return false;
+        }
+        rest = r;
+    }
+    rest.trim_matches(SPACE).is_empty()
+}
+
 impl InputList {
     pub fn new() -> Self {
         Self { events: vec![] }
@@ -300,6 +343,7 @@ impl InputList {
                 let bad_pi = match &ok_ev {
                     Event::Decl(_) if index > 0 => Some("XML declaration not at start of document"),
                     Event::Decl(d) if d.version().is_err() => Some("XML declaration without version"),
+                    Event::Decl(_) if !is_xml_decl(ev_str) => Some("malformed XML declaration"),
                     Event::PI(_) => {
                         let target = ev_str.split([' ', '\t', '\n', '\r']).next().unwrap_or("");
                         if !is_xml_name(target.as_bytes()) || target.eq_ignore_ascii_case("xml") {
